@@ -7,7 +7,7 @@ import jdfgen
 META = dict(
     engine='seqx',
     technique='grammar-based exhaustive enumeration of a finite family of JDF texts (counts in {1,2,MAX-1,MAX,MAX+1} x flow kinds x dependency targets x guards x ranges x properties x parameter definitions x dependency back-end, plus one-edit mutations of valid texts), each run twice through the real parsec-ptgpp and, when accepted, through gcc -fsyntax-only with the build flags',
-    level_text='For every enumerated JDF text: parsec-ptgpp terminates normally (no signal, no hang) and either exits non-zero with a diagnostic, or exits 0 and the generated C passes gcc -fsyntax-only with the include paths / defines of the build (the only tolerated compile failure is the "#error Too many ..." guard that ptgpp itself emits for programs over a build limit, which is how the must_fail_* tests expect over-limit programs to be refused); texts that exceed MAX_LOCAL_COUNT / MAX_PARAM_COUNT / MAX_DEP_IN_COUNT / MAX_DEP_OUT_COUNT are never accepted-and-compilable; two runs on the same input in different directories give byte-identical .c and .h.',
+    level_text='For every enumerated JDF text: parsec-ptgpp terminates normally (no signal, no hang) and either exits non-zero with a diagnostic, or exits 0 and the generated C passes gcc -fsyntax-only with the include paths / defines of the build (a program that only the generated "#error Too many ..." guard refuses counts as NOT rejected: ptgpp itself must exit non-zero); texts that exceed MAX_LOCAL_COUNT (parameters + locals + local-definition iterators) / MAX_PARAM_COUNT (read, write and total flows) / MAX_DEP_IN_COUNT / MAX_DEP_OUT_COUNT are always rejected by ptgpp; two runs on the same input in different directories give byte-identical .c and .h.',
     level_note='The family is finite and generated (one subject task class + mirror peers); limits are read from the generated parsec_options.h of the build under test; acceptance of valid programs is measured and reported but, as in the property statement, not demanded. Failures that match the structural predicate of a finding listed in known_findings.json are reported as KNOWN-FINDING; everything else alarms.',
 )
 RULE = ("one execution = one JDF text pushed through parsec-ptgpp -E twice (+ gcc -fsyntax-only when accepted); states = distinct texts; transitions = tool invocations; "
@@ -215,8 +215,14 @@ def run_one(ptgpp, build, workdir, t, timeout=120):
         res.update(verdict='ok', outcome='accept+compile'); return res
     errs = [l for l in g.stderr.splitlines() if ' error: ' in l or 'fatal error' in l]
     if any('#error' in l and 'Too many' in l for l in errs):
+        # ptgpp exits 0 and only the "#error Too many ..." guard it generated stops the C compiler.  The statement demands a rejection by
+        # ptgpp itself ("rejects it with a diagnostic and non-zero exit status, or emits C that compiles"): since the fix: commit for the total flow count the unchanged
+        # ptgpp refuses every over-limit program of the family itself, so a guard-only refusal is a violation (it was tolerated before:
+        # the total flow count was checked only by the generated guard - found by making this strict, repaired in /repo).
         res['guard'] = True
-        res.update(verdict='ok', outcome='accept+limit-guard: ' + norm_diag(next(l for l in errs if '#error' in l).split('error:', 1)[1])); return res
+        g1 = norm_diag(next(l for l in errs if '#error' in l).split('error:', 1)[1])
+        res.update(verdict='violation', outcome='accept+limit-guard: ' + g1,
+                   msg='parsec-ptgpp exits 0 on a program over a build limit; only the generated guard stops the C compiler: ' + g1); return res
     res.update(verdict='violation', outcome='accepted-not-compilable',
                msg='parsec-ptgpp exits 0 but the generated C does not compile: ' + ' | '.join(re.sub(r'^t\.[ch]:', '', l) for l in errs[:3]))
     return res
@@ -277,6 +283,7 @@ def check(ctx):
             L['compiled'] += 1
         if r['guard']:
             L['limit_guard'] += 1
+            L.setdefault('limit_guard_texts', []).append('%s: %s' % (t['name'], r['outcome']))
         if t['cls'] == 'within' and not r['compiled']:
             valid_rejected.append('%s -> %s' % (t['name'], r['outcome']))
         if len(L['samples']) < 4 and (L['executions'] % 7 == 1):
@@ -311,7 +318,7 @@ def check(ctx):
     if not nviol and nvalid and ncomp * 2 < nvalid and not cut[0]:
         ctx.broken.append('fewer than half of the valid-by-construction texts are accepted and compile (%d of %d): the accept path is not exercised (generator or include paths broken?)' % (ncomp, nvalid))
     return ctx.finish(RULE, ['gcc -fsyntax-only with the build\'s include paths and defines stands for "compiles without errors"',
-                             'a compile failure caused by the "#error Too many ..." guard emitted by ptgpp counts as a rejection with a diagnostic (behaviour expected by tests/dsl/ptg/ptgpp/must_fail_*)'])
+                             'over-limit programs must be rejected by ptgpp itself (a refusal by the generated "#error Too many ..." guard only is a violation)'])
 
 
 def replay(ctx, path, obj):
